@@ -360,6 +360,23 @@ def q_bare(si_value, sys3, dim3):
     return float(si_value / float(si.scale(sys3, dim3))) if si_value != 0 else 0.0
 
 
+def _join_env_keys(r, v, out):
+    """documented shorthand: one key naming several environments ("a,b,c": value) for environments that share a value"""
+    groups = {}
+    for k in out:
+        if k != "default":
+            groups.setdefault(v[k], []).append(k)
+    for val, ks in groups.items():
+        if len(ks) >= 2 and r.random() < 0.5:
+            r.shuffle(ks)
+            joined = r.choice([",", ", ", " ,"]).join(ks)
+            first = out[ks[0]]
+            for k in ks:
+                del out[k]
+            out[joined] = first
+    return out
+
+
 class Rendering:
     """A choice of unit system per nesting level and of quantity form per field,
     drawn lazily from a seeded RNG so that it is reproducible from (seed, salt)."""
@@ -449,7 +466,7 @@ class Rendering:
                 else:
                     out[k] = self.q(v[k], dim3, enclosing)
                     written[v[k]] = out[k]
-            return self.keep(out)
+            return self.keep(_join_env_keys(self.r, v, out))
         return self.q(v, dim3, enclosing)
 
     def seq(self, values, integer=False):
@@ -690,7 +707,7 @@ def _per_env_json(rd, v, dim3, enclosing):
             else:
                 out[k] = _q_json(rd, x, dim3, enclosing)
                 written[x] = out[k]
-        return out
+        return _join_env_keys(rd.r, v, out)
     return _q_json(rd, v, dim3, enclosing)
 
 
